@@ -34,7 +34,7 @@ def _applied_ops(fn_node):
 
 
 def hbar(ctx, rule="C20.hbar"):
-    Hb.thewalrus_kw(ctx, rule, "apps/train/param.py", {"__returns__": {"A_to_cov": Hb.O}})
+    Hb.thewalrus_kw(ctx, rule, "apps/train/param.py", {"__returns__": {"A_to_cov": Hb.O, "_Omat": Hb.Z}})
     Hb.thewalrus_kw(ctx, rule, "apps/qchem/utils.py", {"marginals": {"mu": Hb.H, "V": Hb.O}})
     # A_to_cov scales with sf.hbar
     f = ctx.tree.func("apps/train/param.py", "A_to_cov")
